@@ -30,8 +30,18 @@ type Fault struct {
 	seen   int
 }
 
+// quietMutex: see simrt — the simulated disk's lock must not order server goroutines for the
+// race detector.
+type quietMutex struct{ m sync.Mutex }
+
+//go:norace
+func (q *quietMutex) Lock() { raceOff(); q.m.Lock(); raceOn() }
+
+//go:norace
+func (q *quietMutex) Unlock() { raceOff(); q.m.Unlock(); raceOn() }
+
 var (
-	mu     sync.Mutex
+	mu     quietMutex
 	On     bool
 	nodes  = map[string]*node{}
 	faults []*Fault
